@@ -5,7 +5,10 @@ use std::collections::BTreeMap;
 use std::path::{Path, PathBuf};
 use std::time::Instant;
 
-pub const VERIF_DIR: &str = "/verif";
+/// root of the verification tree (the directory of the `check` script; /verif unless overridden)
+pub fn verif_dir() -> String {
+    std::env::var("CVX_VERIF_DIR").unwrap_or_else(|_| "/verif".to_string())
+}
 
 #[derive(Clone, Copy, Debug, PartialEq, Eq)]
 pub enum Tier {
@@ -40,7 +43,7 @@ pub struct KnownFindings {
 impl KnownFindings {
     pub fn load() -> Self {
         let mut open = BTreeMap::new();
-        let path = Path::new(VERIF_DIR).join("known_findings.txt");
+        let path = Path::new(&verif_dir()).join("known_findings.txt");
         if let Ok(text) = std::fs::read_to_string(path) {
             for line in text.lines() {
                 let line = line.trim();
@@ -151,7 +154,7 @@ impl Report {
         // replay files for real violations: group by key, keep the first (smallest) of each key
         let mut seen_keys = std::collections::BTreeSet::new();
         let mut lines = vec![];
-        let replay_dir = PathBuf::from(VERIF_DIR).join("replays").join(&self.property);
+        let replay_dir = PathBuf::from(verif_dir()).join("replays").join(&self.property);
         for v in &real {
             if !seen_keys.insert(v.key.clone()) {
                 continue;
@@ -204,7 +207,7 @@ impl Report {
             "wall_s": wall,
             "violations": n_real,
         });
-        let evdir = PathBuf::from(VERIF_DIR).join("evidence");
+        let evdir = PathBuf::from(verif_dir()).join("evidence");
         let _ = std::fs::create_dir_all(&evdir);
         let evpath = evdir.join(format!("{}.json", self.property));
         std::fs::write(&evpath, serde_json::to_string_pretty(&ev).unwrap()).expect("cannot write evidence");
